@@ -13,13 +13,22 @@ PS_NUM = 6 * 10**16  # picoseconds per tick = PS_NUM / (milli_bpm * resolution)
 
 def case_text(case) -> str:
     sync = []
+    # (case["pad"]: a seed - tempo, time-signature and instrument lines then carry blanks before and after them, as hand-edited
+    #  files do and as the recognisers accept; anchor lines only in front)
+    import random
+    pr = random.Random(case["pad"]) if case.get("pad") is not None else None
+
+    def pad(line, trail=True):
+        if pr is None:
+            return line
+        return pr.choice(["", "", " ", "\t", "   "]) + line + (pr.choice(["", "", " ", "\t", " \t "]) if trail else "")
     for it in case["sync"]:
         if it[0] == "B":
-            sync.append(b_line(it[1], it[2]))
+            sync.append(pad(b_line(it[1], it[2])))
         elif it[0] == "TS":
-            sync.append(ts_line(it[1], it[2] if len(it) > 2 else 4))
+            sync.append(pad(ts_line(it[1], it[2] if len(it) > 2 else 4)))
         elif it[0] == "A":
-            sync.append(f"{it[1]} = A {it[2]}")
+            sync.append(pad(f"{it[1]} = A {it[2]}", trail=False))
         else:
             sync.append(it[1])
     events = []
@@ -29,7 +38,7 @@ def case_text(case) -> str:
         events.append(ge_line(t, txt))
     tracks = {}
     for hdr, body in case.get("tracks", {}).items():
-        tracks[hdr] = nt.render_body(body)
+        tracks[hdr] = [pad(ln) for ln in nt.render_body(body)]
     song = None
     if case.get("res_text") is not None:
         song = [f"Resolution = {case['res_text']}"]
@@ -222,6 +231,11 @@ def chart_case_from_map(r, cid, res, tempo, pts, dense=False):
     bs = sorted([it for it in sync if it[0] == "B"], key=lambda it: it[1])
     tss = sorted([it for it in sync if it[0] == "TS"], key=lambda it: it[1])
     sync = nt.interleave(r, bs, tss)
+    # anchor lines (Moonscraper's "locked" ticks) carry a time of their own; the tempo-map time of a tick does not depend
+    # on them: put some on ticks of interest, with values that have nothing to do with the tempo map
+    if r.random() < 0.5:
+        anchors = [("A", t, r.choice([0, 1, 10**6, r.randrange(0, 10**9)])) for t in sorted(r.sample(pts, min(len(pts), r.choice([1, 2, 5]))))]
+        sync = nt.interleave(r, sync, anchors)
     evs = []
     for k in ("text", "section", "lyric"):
         for t in sorted(r.sample(pts, min(len(pts), 3 if not dense else len(pts)))):
@@ -243,7 +257,10 @@ def chart_case_from_map(r, cid, res, tempo, pts, dense=False):
     tracks = {"ExpertSingle": body}
     if r.random() < 0.4:
         tracks["HardDrums"] = [("N", t, 1, 0) for t in note_ticks[::2]]
-    return {"id": cid, "res": res, "sync": sync, "events": evs, "tracks": tracks}
+    case = {"id": cid, "res": res, "sync": sync, "events": evs, "tracks": tracks}
+    if r.random() < 0.3:
+        case["pad"] = r.randrange(10**9)
+    return case
 
 
 def marathon_map(r):
